@@ -215,11 +215,14 @@ Definition tree_of_state (st : bstate) : wtree :=
             | s => hd_error (view s [])
             end).
 
-(* the fold; efuel bounds the nesting of embedded documents *)
-Fixpoint build_from (tbl : list lang) (efuel : nat) (evs : list event) (st : bstate) {struct efuel} : bres bstate :=
-  match efuel with
-  | O => BFuel
-  | S ef =>
+(* WBXML_MAX_EMBEDDED_DEPTH (wbxml_defines.h): only a top-level document may embed documents *)
+Definition MAX_EMBEDDED_DEPTH : nat := 1.
+
+(* the fold.  levels = WBXML_MAX_EMBEDDED_DEPTH - ctx->embedded_depth: how many levels of embedded documents may
+   still be opened below this document (wbxml_tree_from_wbxml: embedded_depth 0, levels = MAX_EMBEDDED_DEPTH;
+   wbxml_tree_from_wbxml_embedded passes embedded_depth + 1 on).  The recursion is structural in it: BFuel is
+   never produced here. *)
+Fixpoint build_from (tbl : list lang) (levels : nat) (evs : list event) (st : bstate) {struct levels} : bres bstate :=
     (fix go (evs : list event) (st : bstate) {struct evs} : bres bstate :=
        match evs with
        | [] => BOk st
@@ -234,37 +237,44 @@ Fixpoint build_from (tbl : list lang) (efuel : nat) (evs : list event) (st : bst
          | EvChars ch =>
            match syncml_data_type (b_stack st) with
            | D_WBXML =>
-             (* embedded document: wbxml_tree_from_wbxml(ch, len, WBXML_LANG_UNKNOWN, tree->orig_charset) *)
-             match parse_with tbl 0 (b_charset st) (S (length ch)) ch with
-             | POk evs' =>
-               match build_from tbl ef evs' st_init with
-               | BOk st' =>
-                 let t := tree_of_state st' in
-                 next (add_to_current st (TSub (wt_lang t) (wt_charset t) (wt_root t)))
-               | BErr _ => next (add_to_current st (TText ch))     (* "Not parsable ? Just add it as a Text Node" *)
-               | BFuel => BFuel
+             match levels with
+             | O => next (add_to_current st (TText ch))   (* embedded_depth >= WBXML_MAX_EMBEDDED_DEPTH: goto text_node *)
+             | S lv =>
+               (* embedded document: wbxml_tree_from_wbxml_embedded(ch, len, WBXML_LANG_UNKNOWN, tree->orig_charset, embedded_depth + 1) *)
+               match parse_with tbl 0 (b_charset st) (S (length ch)) ch with
+               | POk evs' =>
+                 match build_from tbl lv evs' st_init with
+                 | BOk st' =>
+                   let t := tree_of_state st' in
+                   next (add_to_current st (TSub (wt_lang t) (wt_charset t) (wt_root t)))
+                 | BErr _ => next (add_to_current st (TText ch))     (* "Not parsable ? Just add it as a Text Node" *)
+                 | BFuel => BFuel
+                 end
+               | PErr _ => next (add_to_current st (TText ch))
+               | PFuel => BFuel
                end
-             | PErr _ => next (add_to_current st (TText ch))
-             | PFuel => BFuel
              end
            | D_CDATA => next (add_to_current (open_cdata st) (TText ch))
            | D_NORMAL => next (add_to_current st (TText ch))
            end
          end
-       end) evs st
-  end.
+       end) evs st.
 
-Definition build (tbl : list lang) (efuel : nat) (evs : list event) : bres wtree :=
-  match build_from tbl efuel evs st_init with
+Definition build (tbl : list lang) (levels : nat) (evs : list event) : bres wtree :=
+  match build_from tbl levels evs st_init with
   | BOk st => BOk (tree_of_state st)
   | BErr e => BErr e
   | BFuel => BFuel
   end.
 
-(* wbxml_tree_from_wbxml *)
-Definition tree_from_wbxml (tbl : list lang) (forced meta : N) (efuel : nat) (bs : bytes) : bres wtree :=
+(* wbxml_tree_from_wbxml_embedded with `levels` levels of embedding still allowed *)
+Definition tree_from_wbxml (tbl : list lang) (forced meta : N) (levels : nat) (bs : bytes) : bres wtree :=
   match parse_with tbl forced meta (S (length bs)) bs with
-  | POk evs => build tbl efuel evs
+  | POk evs => build tbl levels evs
   | PErr e => BErr (BE_PARSE e)
   | PFuel => BFuel
   end.
+
+(* wbxml_tree_from_wbxml *)
+Definition wbxml_tree_from_wbxml (tbl : list lang) (forced meta : N) (bs : bytes) : bres wtree :=
+  tree_from_wbxml tbl forced meta MAX_EMBEDDED_DEPTH bs.
